@@ -35,6 +35,30 @@ def _iter_self_value(t) -> bool:
         s.args[0], lambda u: isinstance(u, App) and u.op == "attr:value"))
 
 
+def container_puts(o):
+    """[(kind, key or None, value)]: every value an outcome places into a container under construction, whatever the way it is
+    written - subscript stores ('store'), append / insert / add / extend / update calls ('call'; the items of a tuple or list literal
+    handed to extend count one by one), element expressions of comprehensions in the result ('comp')."""
+    out = []
+    for e in all_effects(o.effects):
+        if not isinstance(e, App):
+            continue
+        if e.op == "eff:store":
+            out.append(("store", e.args[1], e.args[2]))
+        elif e.op == "eff:call" and isinstance(e.args[0], App) and e.args[0].op in ("meth:append", "meth:update", "meth:extend", "meth:insert", "meth:add"):
+            for a_ in e.args[0].args[1:]:
+                if e.args[0].op == "meth:extend" and isinstance(a_, App) and a_.op in ("tuple", "list"):
+                    out += [("call", None, x) for x in a_.args]
+                else:
+                    out.append(("call", None, a_))
+    for s_ in (subterms(o.value) if o.value is not None else ()):
+        if isinstance(s_, App) and s_.op in ("comp:list", "comp:gen", "comp:set") and len(s_.args) == 3:
+            out.append(("comp", None, s_.args[0]))
+        if isinstance(s_, App) and s_.op == "comp:dict" and len(s_.args) == 3 and isinstance(s_.args[0], App) and s_.args[0].op == "kv":
+            out.append(("store", s_.args[0].args[0], s_.args[0].args[1]))
+    return out
+
+
 def lookup_attribute_facts(ctx, rid):
     """C08-d / C02-D3: which attribute selects the metadata entry in each direction, and which is emitted."""
     R = ctx.report
@@ -161,12 +185,11 @@ def lookup_attribute_facts(ctx, rid):
         fi, outs = _outs(ctx, qual)
         keys = []
         for o in outs:
-            for e in all_effects(o.effects):
-                if isinstance(e, App) and e.op == "eff:store":
-                    keys.append(e.args[1])
-                if isinstance(e, App) and e.op == "eff:call" and isinstance(e.args[0], App) \
-                        and e.args[0].op == "meth:append" and qual.startswith("SuitKeyValueTuple"):
-                    keys.append(e.args[0].args[1])
+            for kind_, k_, v_ in container_puts(o):
+                if kind_ == "store":
+                    keys.append(k_)
+                elif qual.startswith("SuitKeyValueTuple"):
+                    keys.append(v_)
         keyterms = [k for k in keys if _attr_ops(k) & {"attr:id", "attr:name"}]
         if not keyterms:
             raise AnalysisError(f"{qual}: no store keyed by an entry attribute recognised")
